@@ -159,14 +159,14 @@ class Diagram(tensor.Diagram):
                 swaps = Id(target)\
                     @ Diagram.swap(source - target, 1)\
                     @ Id(len(scan) - source - 1)
-                scan = scan[:target] + [node]\
+                scan = scan[:target] + [scan[source]]\
                     + scan[target:source] + scan[source + 1:]
             elif target > source:
                 swaps = Id(source)\
                     @ Diagram.swap(1, target - source)\
                     @ Id(len(scan) - target - 1)
-                scan = scan[:source] + scan[source + 1:target]\
-                    + [node] + scan[target:]
+                scan = scan[:source] + scan[source + 1:target + 1]\
+                    + [scan[source]] + scan[target + 1:]
             else:
                 swaps = Id(len(scan))
             return scan, swaps
